@@ -97,3 +97,25 @@ Definition judge_quoted (c : ecfg * char * str * outcome str) : N :=
               end in
   bits (ostr_eqb (convert_quoted K q v) r) spec (wf_quoting K q)
        (existsb (fun x => N.eqb x q || mem x (escaped_chars K) || is_special x || N.eqb x c_bs) s).
+
+(* suite field: (configuration, pattern match positions, quote decision, field name, impl text) *)
+From PS Require Import Model.FieldName.
+Definition field_ok (K : fcfg) (P : list nat) (qd : bool) (f : str) : bool :=
+  match f_escape K with
+  | Some [ec] =>
+    (fix cov (i : nat) (l : str) : bool :=
+       match l with [] => true | c :: l' => (negb (N.eqb c ec) || existsb (Nat.eqb i) P) && cov (S i) l' end) O f
+    && match f_quote K with
+       | Some x => negb qd || (negb (N.eqb x ec) && (f_escape_quote K || negb (mem x f)))
+       | None => true end
+  | _ => false
+  end.
+Definition judge_field (c : fcfg * list nat * bool * str * str) : N :=
+  let '(K, P, qd, f, r) := c in
+  let pat := fun i => existsb (Nat.eqb i) P in
+  let e := match f_escape K with Some [ec] => Some ec | _ => None end in
+  let quoted := match f_quote K with Some _ => qd | None => false end in
+  bits (str_eqb (escape_and_quote_field K pat qd f) r)
+       (option_eqb str_eqb (fread e (f_quote K) quoted r) (Some f))
+       (field_ok K P qd f)
+       (existsb (fun x => negb (N.leb 48 x && N.leb x 122)) f).
